@@ -593,6 +593,25 @@ impl rustc_driver::Callbacks for Dump {
             bodies.push(cx.body(did));
         }
 
+        // initialisers of the crate's own `const` items: a named constant of aggregate type (`const FREE: (f64, f64) = ..`) is not a
+        // scalar the operand can carry, so its value is exported as the MIR of its initialiser
+        let mut consts = Vec::new();
+        for ldid in tcx.hir_body_owners() {
+            let did = ldid.to_def_id();
+            if !matches!(tcx.def_kind(did), DefKind::Const { .. } | DefKind::AssocConst { .. }) {
+                continue;
+            }
+            if !tcx.generics_of(did).is_empty() || tcx.generics_of(did).parent.is_some() {
+                continue;
+            }
+            let body: &mir::Body<'tcx> = tcx.mir_for_ctfe(ldid);
+            consts.push(obj(vec![
+                ("path", s(cx.path(did))),
+                ("ty", s(format!("{}", body.local_decls[mir::RETURN_PLACE].ty))),
+                ("blocks", cx.blocks_json(did, body)),
+            ]));
+        }
+
         // ADTs and their freeze-ness (no interior mutability) where the type is closed
         let mut adts = Vec::new();
         let mut unsafe_blocks = 0usize;
@@ -659,6 +678,7 @@ impl rustc_driver::Callbacks for Dump {
             ("meta", meta),
             ("adts", J::Arr(adts)),
             ("bodies", J::Arr(bodies)),
+            ("consts", J::Arr(consts)),
         ]);
         let out_dir = std::env::var("AFFFACTS_OUT").unwrap_or_else(|_| ".".to_string());
         let path = format!("{}/{}.facts.json", out_dir, self.krate);
